@@ -114,12 +114,46 @@ def tables(rm, ctx=None):
         written = sum(1 for x in ast.walk(fx) if (isinstance(x, ast.Attribute) and x.attr == "register") or (isinstance(x, ast.Name) and x.id == "register"))
         direct = [x for x in ast.walk(fx) if isinstance(x, ast.Attribute) and x.attr == "_symbols" and isinstance(x.ctx, ast.Load)]
         read = sum(1 for r in rm.registry(c) if r["cls"] == dc and r["op"] == "register")
+        # ... and so does one that hands the work to a helper which could not be put back in place (a method reached through self, a
+        # function of the module) and which registers / runs the base constructor itself
+        hidden = _hidden_registrations(rm.pkg, dc, fx)
+        if hidden and not (written > read or direct):
+            regs.opaque.add(c)
+            if ctx is not None:
+                ctx.unrec("R1", f"{c}.__init__:registrations", (rm.pkg.cls(c).file, fn.lineno), f"the constructor calls {hidden[0]}(), which registers symbols / runs the base constructor "
+                          "and is not read in place: the names this class registers are not all known")
         if written > read or direct:
             regs.opaque.add(c)
             if ctx is not None:
                 ctx.unrec("R1", f"{c}.__init__:registrations", (rm.pkg.cls(c).file, fn.lineno), f"the constructor mentions `register` {written} times" + (" and the symbol table itself" if direct else "") +
                           f" but only {read} registrations could be read off it: some names are registered in a way that is not understood")
     return regs
+
+
+def _hidden_registrations(pkg, dc, fx) -> list:
+    """names of the helpers the (expanded) constructor `fx` of class dc still CALLS -- methods through self / cls / the class name
+    (MRO of dc), functions of the module by bare name, transitively -- whose own text registers / unregisters, touches the symbol
+    table or uses super()"""
+    file = pkg.cls(dc).file
+    seen, todo, out = set(), [fx], []
+    marks = lambda f: any((isinstance(n, ast.Attribute) and n.attr in ("register", "unregister", "_symbols")) or (isinstance(n, ast.Name) and n.id in ("super", "register", "unregister"))
+                          for n in ast.walk(f))
+    while todo and len(seen) < 80:
+        f = todo.pop()
+        for c in ast.walk(f):
+            if not isinstance(c, ast.Call):
+                continue
+            callee = name = None
+            if isinstance(c.func, ast.Attribute) and isinstance(c.func.value, ast.Name) and c.func.value.id in ("self", "cls", dc) and c.func.attr not in ("register", "unregister"):
+                callee, name = pkg.resolve(dc, c.func.attr)[1], c.func.attr
+            elif isinstance(c.func, ast.Name):
+                callee, name = pkg.functions.get((file, c.func.id)), c.func.id
+            if callee is not None and id(callee) not in seen:
+                seen.add(id(callee))
+                if marks(callee):
+                    out.append(name)
+                todo.append(callee)
+    return out
 
 
 def declared_everywhere(ctx):
@@ -1018,8 +1052,20 @@ def _collect_rule(ctx, pkg):
     `getattr(c, kind)` of EVERY c in `components` -- as nested loops storing / updating, or as one expression (dict / OrderedDict
     over chained items, a dict comprehension, generator helpers of the module).  The two parameters are taken by POSITION."""
     from ..valueflow import Flow, subst
-    fn = pkg.func(UTIL, "_collect_variable_items")
-    ctx.saw(UTIL, "_collect_variable_items")
+    # the function by USE: whatever utilities function the renderer installs as the Jinja filter `collect_variable_items`
+    fname = "_collect_variable_items"
+    tl = pkg.modules.get("naunet/templateloader.py")
+    for st in ast.walk(tl) if tl is not None else ():
+        if isinstance(st, ast.Assign) and len(st.targets) == 1 and isinstance(st.targets[0], ast.Subscript) and isinstance(st.targets[0].slice, ast.Constant) \
+                and st.targets[0].slice.value == "collect_variable_items" and isinstance(st.targets[0].value, ast.Attribute) and st.targets[0].value.attr == "filters" \
+                and isinstance(st.value, ast.Name):
+            imported = {a.asname or a.name: a.name for im in tl.body if isinstance(im, ast.ImportFrom) and im.module == "utilities" and im.level == 1 for a in im.names}
+            if imported.get(st.value.id) and (UTIL, imported[st.value.id]) in pkg.functions:
+                fname = imported[st.value.id]
+            elif (UTIL, st.value.id) in pkg.functions and st.value.id not in {n.id for n in ast.walk(tl) if isinstance(n, ast.Name) and isinstance(n.ctx, ast.Store)}:
+                fname = st.value.id
+    fn = pkg.func(UTIL, fname)
+    ctx.saw(UTIL, fname)
     key, where = "_collect_variable_items:every component", (UTIL, fn.lineno)
     msg = "every item of every component's params/deriveds/constants is merged (keyed by symbol), unconditionally"
     ps = [a.arg for a in fn.args.args]
@@ -1035,7 +1081,24 @@ def _collect_rule(ctx, pkg):
         if any(isinstance(n, (ast.Yield, ast.YieldFrom)) for n in ast.walk(g)):
             return _generator_as_expression(g)
         return g
-    fl = Flow(fn, UTIL, func_resolver=helper)
+    # (read with the plain module functions it was split into put back in place: a block extracted into a procedure that fills the
+    # dictionary it is handed is the same nested loop)
+    fnx = fn
+    try:
+        import copy
+        from ..normalize import expand_helpers
+        locs = {n.id for n in ast.walk(fn) if isinstance(n, ast.Name) and isinstance(n.ctx, ast.Store)} | set(ps)
+
+        def put_back(call):
+            if isinstance(call.func, ast.Name) and call.func.id not in locs:
+                g = pkg.functions.get((UTIL, call.func.id))
+                if g is not None and g is not fn and not any(isinstance(n, (ast.Yield, ast.YieldFrom)) or (isinstance(n, ast.Name) and n.id == fn.name) for n in ast.walk(g)):
+                    return g, None
+            return None
+        fnx = expand_helpers(copy.deepcopy(fn), put_back)
+    except Exception:
+        fnx = fn
+    fl = Flow(fnx, UTIL, func_resolver=helper)
     rets = [simp(f.value) for f in fl.facts if f.kind == "return" and f.value is not None]
     evidence, ok = [], False
     # by role: the dictionary whose .items() is returned
@@ -1282,6 +1345,10 @@ def _r11(ctx, pkg, regs, protos, consts, universal):
     tl = pkg.cls("TemplateLoader")
     root = tl.methods.get("_assign_rates")
     if root is None:
+        # under another name, by role: the one method of the renderer that asks the reactions for their rate expressions
+        asking = [m for m in tl.methods.values() if any(isinstance(c, ast.Call) and isinstance(c.func, ast.Attribute) and c.func.attr == "rateexpr" for c in ast.walk(m))]
+        root = asking[0] if len(asking) == 1 else None
+    if root is None:
         ctx.missing("R11", "_assign_rates", (TLOADER, 0), "TemplateLoader._assign_rates vanished")
         return
     ctx.saw(TLOADER, "TemplateLoader._assign_rates")
@@ -1368,12 +1435,35 @@ def _r11(ctx, pkg, regs, protos, consts, universal):
         if isinstance(e, ast.UnaryOp) and isinstance(e.op, ast.USub):
             v = const_of(e.operand, depth)
             return -v if v is not _tri and isinstance(v, (int, float)) and not isinstance(v, bool) else _tri
-        if depth < 4 and isinstance(e, ast.Name) and e.id in mconst:
+        if depth < 4 and isinstance(e, ast.Name) and e.id in lconst:
+            return const_of(lconst[e.id], depth + 1)
+        if depth < 4 and isinstance(e, ast.Name) and e.id in mconst and e.id not in lstores:
             return const_of(mconst[e.id], depth + 1)
         if depth < 4 and isinstance(e, ast.Attribute) and isinstance(e.value, ast.Name) and e.value.id in ("self", "cls", "ThermalProcess") and e.attr in tp.attrs \
                 and e.attr not in stores:
             return const_of(tp.attrs[e.attr], depth + 1)
         return _tri
+    # the constructor as rules read it: the private helpers it was split into put back, and a local bound once at its top level
+    # (`unlimited = -1.0; self.temp_min = unlimited`) standing for its value
+    initx, lconst, lstores = init, {}, {}
+    if init is not None:
+        try:
+            initx = pkg.expanded("ThermalProcess", "__init__")
+        except Exception:
+            initx = init
+        for nd in ast.walk(initx):
+            if isinstance(nd, ast.Name) and isinstance(nd.ctx, (ast.Store, ast.Del)):
+                lstores[nd.id] = lstores.get(nd.id, 0) + 1
+        for a_ in ast.walk(initx.args):
+            if isinstance(a_, ast.arg):
+                lstores[a_.arg] = lstores.get(a_.arg, 0) + 1
+        lconst = {st.targets[0].id: st.value for st in initx.body if isinstance(st, ast.Assign) and len(st.targets) == 1 and isinstance(st.targets[0], ast.Name)
+                  and lstores.get(st.targets[0].id) == 1}
+
+    def deref(v, depth=0):
+        while depth < 4 and isinstance(v, ast.Name) and v.id in lconst:
+            v, depth = lconst[v.id], depth + 1
+        return v
     if init is not None:
         ctx.saw(TPROC, "ThermalProcess.__init__")
         for m in tp.methods.values():
@@ -1381,7 +1471,7 @@ def _r11(ctx, pkg, regs, protos, consts, universal):
                 if isinstance(n, ast.Attribute) and isinstance(n.ctx, ast.Store) and isinstance(n.value, ast.Name) and n.value.id == "self":
                     stores[n.attr] = stores.get(n.attr, 0) + 1
         params = [a.arg for a in init.args.args[1:]] + [a.arg for a in init.args.kwonlyargs]
-        for st in init.body:
+        for st in initx.body:
             # `self.a = v`, `self.a = self.b = v`, `self.a, self.b = v, w`
             pairs = []
             if isinstance(st, ast.Assign):
@@ -1397,8 +1487,8 @@ def _r11(ctx, pkg, regs, protos, consts, universal):
                     c_ = const_of(v)
                     if c_ is not _tri:
                         fixed[t.attr] = c_
-                    elif isinstance(v, ast.Name) and v.id in params:
-                        fed[t.attr] = v.id
+                    elif isinstance(deref(v), ast.Name) and deref(v).id in params and lstores.get(deref(v).id) == 1:
+                        fed[t.attr] = deref(v).id
     # ... or that the class body fixes (`temp_min = -1.0`) and no method stores
     for a_, node_ in tp.attrs.items():
         if a_ not in fixed and a_ not in fed and not (init is not None and a_ in stores) and const_of(node_) is not _tri:
